@@ -331,10 +331,13 @@ def initGo : List LoP → St → St
 def initState (ps : List Poly) : St :=
   initGo (inputLines ps) ⟨[], [], [], [], [], [], []⟩
 
-/-- Every split cuts a segment at an end point of another one strictly inside it, so a segment is cut at most
-once per distinct end point: at most `2n·n` splits of `n` input lines, three events each, plus the `2n` initial
-events. Every iteration of every loop pops an event. -/
-def fuelFor (n : Nat) : Nat := 6 * n * n + 2 * n + 8
+/-- Fuel of the model's loops. With `n` input lines there are `2n` end points; every split cuts a segment at one of
+them lying strictly inside it, so the sum over all segments of the number of end points strictly inside (at most
+`2n·n`) drops with every split, while a split queues three events: `#events + 3·(that sum) ≤ 2n + 6n²` never grows and
+drops with every event popped. Each popped event costs at most three levels of the nested recursion
+(`handle_event` → round → `while`), hence `3·(6n² + 2n) + 3`. Theorem `monotone_fuel_irrelevant` (Props/C10): any larger
+fuel gives the same answer, so `none` is never an artefact of this bound. -/
+def fuelFor (n : Nat) : Nat := 18 * n * n + 6 * n + 8
 
 /-- `Builder::from_polygons_iter(polygons).build()` up to the final state; `none` = the code panics -/
 def buildState (ps : List Poly) : Option St :=
